@@ -36,6 +36,8 @@ structure Col where
   deltaz : Rat
   speedClosed : Rat
   u : Option (Rat × Rat)           -- `(u[0], u[-1])` when the column has a `u` list
+  upper : Bool := false            -- `UTrenchWriter` spells the sub-programs `_WALL.pgm` / `_FLOOR.pgm`
+  beds : List (Rat × Rat) := []    -- `UTrenchColumn.trenchbed`: first exterior vertex of every bed block
 deriving Repr, Inhabited
 
 /-- `f'{n:03}'` -/
@@ -45,6 +47,12 @@ def pad3 (n : Nat) : String :=
 
 def wallName (i : Nat) : String := "trench" ++ pad3 (i + 1) ++ "_wall.pgm"
 def floorName (i : Nat) : String := "trench" ++ pad3 (i + 1) ++ "_floor.pgm"
+def wallNameU (i : Nat) : String := "trench" ++ pad3 (i + 1) ++ "_WALL.pgm"
+def floorNameU (i : Nat) : String := "trench" ++ pad3 (i + 1) ++ "_FLOOR.pgm"
+def bedName (k : Nat) : String := "trench_BED_" ++ pad3 (k + 1) ++ ".pgm"
+/-- the name under which the call file of column `c` refers to the wall / floor program of trench `i` -/
+def Col.wall (c : Col) (i : Nat) : String := if c.upper then wallNameU i else wallName i
+def Col.floor (c : Col) (i : Nat) : String := if c.upper then floorNameU i else floorName i
 def colDir (c : Col) : String := "trenchCol" ++ pad3 (c.index + 1)
 /-- `str(pathlib.Path(base_folder) / colDir / name)` for a non-empty base folder without trailing separator -/
 def inCol (c : Col) (name : String) : String :=
@@ -69,7 +77,7 @@ def uMove (cfg : Cfg) (u : Option Rat) (pause : Bool) (cs : CS) : Res :=
 def wallLoop (cfg : Cfg) (c : Col) (i : Nat) (cs : CS) : Res :=
   if c.nRep ≤ 0 then { cs := cs, err := some (.value "Number of iterations is 0") }
   else
-    let r := (farcallOp cfg (wallName i) cs).andThen
+    let r := (farcallOp cfg (c.wall i) cs).andThen
       (instrR [.incVar "zcurr" (fmt 6 (c.deltaz / cfg.neff)), .g1 { zvar := some "ZCURR" }])
     { out := [Stmt.rep c.nRep.toNat r.out, Stmt.atom .blank], pre := r.pre,
       cs := { r.cs with dwellTotal := r.cs.dwellTotal + loopIncr c.nRep cs.dwellTotal r.cs.dwellTotal }, err := r.err }
@@ -78,7 +86,7 @@ def wallLoop (cfg : Cfg) (c : Col) (i : Nat) (cs : CS) : Res :=
 def trenchBlock (cfg : Cfg) (c : Col) (nbox i : Nat) (xy : Rat × Rat) (cs : CS) : Res :=
   let p := transform cfg xy.1 xy.2 ((nbox : Rat) * c.hBox + c.zOff)
   ((((((((((((((((Res.ofOut (comment true cs)).andThen
-    (loadOp (inCol c (wallName i)) 2)).andThen
+    (loadOp (inCol c (c.wall i)) 2)).andThen
     (instrR [.msg])).andThen
     (shutterR cfg false)).andThen
     (uMove cfg (c.u.map (·.1)) true)).andThen
@@ -86,16 +94,16 @@ def trenchBlock (cfg : Cfg) (c : Col) (nbox i : Nat) (xy : Rat × Rat) (cs : CS)
     (instrR [.setVar "zcurr" (fmt 6 p.2.2)])).andThen
     (shutterR cfg true)).andThen
     (wallLoop cfg c i)).andThen
-    (removeOp (wallName i) 2)).andThen
+    (removeOp (c.wall i) 2)).andThen
     (shutterR cfg false)).andThen
-    (loadOp (inCol c (floorName i)) 2)).andThen
+    (loadOp (inCol c (c.floor i)) 2)).andThen
     (instrR [.msg])).andThen
     (uMove cfg (c.u.map (·.2)) true)).andThen
     (shutterR cfg true)).andThen
-    (farcallOp cfg (floorName i))).andThen fun cs =>
+    (farcallOp cfg (c.floor i))).andThen fun cs =>
   (((shutterR cfg false cs).andThen
     (uMove cfg (c.u.map (·.1)) false)).andThen
-    (removeOp (floorName i) 2))
+    (removeOp (c.floor i) 2))
 
 /-- all blocks: `itertools.product(range(nboxz), enumerate(column))` — levels outermost -/
 def blocksFrom (cfg : Cfg) (c : Col) : List (Nat × Nat × (Rat × Rat)) → CS → Res
@@ -105,10 +113,32 @@ def blocksFrom (cfg : Cfg) (c : Col) : List (Nat × Nat × (Rat × Rat)) → CS 
 def blockList (c : Col) : List (Nat × Nat × (Rat × Rat)) :=
   (List.range c.nboxz).flatMap fun nbox => c.inits.zipIdx.map fun (xy, i) => (nbox, i, xy)
 
-/-- the body of `_farcall_trench_column`: `dvar(['ZCURR'])`, the blocks, `MSGCLEAR -1` -/
+/-- one bed block of a U-trench call file (`UTrenchWriter._farcall_trench_column`, second loop): positioned in x / y only -/
+def bedBlock (cfg : Cfg) (c : Col) (k : Nat) (xy : Rat × Rat) (cs : CS) : Res :=
+  let p := transform cfg xy.1 xy.2 0
+  ((((((((((Res.ofOut (comment true cs)).andThen
+    (shutterR cfg false)).andThen
+    (loadOp (inCol c (bedName k)) 2)).andThen
+    (instrR [.msg])).andThen
+    (uMove cfg (c.u.map (·.2)) true)).andThen
+    (moveToR cfg (some p.1) (some p.2.1) none (some c.speedClosed))).andThen
+    (shutterR cfg true)).andThen
+    (farcallOp cfg (bedName k))).andThen
+    (shutterR cfg false)).andThen
+    (uMove cfg (c.u.map (·.1)) false)).andThen
+    (removeOp (bedName k) 2)
+
+def bedsFrom (cfg : Cfg) (c : Col) : List (Nat × (Rat × Rat)) → CS → Res
+  | [], cs => { cs := cs }
+  | (k, xy) :: rest, cs => (bedBlock cfg c k xy cs).andThen (bedsFrom cfg c rest)
+
+def bedList (c : Col) : List (Nat × (Rat × Rat)) := c.beds.zipIdx.map fun (xy, k) => (k, xy)
+
+/-- the body of `_farcall_trench_column` (both writers): `dvar(['ZCURR'])`, the (level, trench) blocks, the bed blocks of a
+U-trench column, `MSGCLEAR -1` -/
 def farcallBody (cfg : Cfg) (c : Col) (cs : CS) : Res :=
   let d : Res := { pre := emit [.dvar ["zcurr"], .blank], cs := { cs with dvars := cs.dvars ++ ["zcurr"] } }
-  (d.andThen (blocksFrom cfg c (blockList c))).andThen (instrR [.msg])
+  ((d.andThen (blocksFrom cfg c (blockList c))).andThen (bedsFrom cfg c (bedList c))).andThen (instrR [.msg])
 
 /-- a whole compiler session around an arbitrary body (the shape of `Gc.session`) -/
 def sessionWith (cfg : Cfg) (body : CS → Res) : List Stmt × CS :=
@@ -125,5 +155,27 @@ def sessionWith (cfg : Cfg) (body : CS → Res) : List Stmt × CS :=
   (r.pre ++ h.1 ++ r.out ++ x.1 ++ g.1, g.2)
 
 def farcallFile (cfg : Cfg) (c : Col) : List Stmt × CS := sessionWith cfg (farcallBody cfg c)
+
+
+/-! ### the leaf files: `export_array2d` -/
+
+/-- one line of `export_array2d`: the transformed point printed as `G1 X… Y… [F…]`, with `G9` when the deceleration flag is set -/
+def leafLine (cfg : Cfg) (xy : Rat × Rat) (f : Option Rat) (g9 : Bool) : Except Err Instr :=
+  let p := transform cfg xy.1 xy.2 0
+  (formatArgs cfg.digits (some p.1) (some p.2.1) none f).map fun w => .g1 { w with g9 := g9 }
+
+/-- `export_array2d(x, y, speed, forced_deceleration)` for a scalar speed: the feed is printed on the first line only
+(`zip_longest` against the one-element speed list), flags beyond the end of the flag list count as unset -/
+def leafLines (cfg : Cfg) (speed : Rat) (decel : List Bool) : Nat → List (Rat × Rat) → Except Err (List Instr)
+  | _, [] => .ok []
+  | k, xy :: rest =>
+    match leafLine cfg xy (if k = 0 then some speed else none) (decel.getD k false) with
+    | .error e => .error e
+    | .ok i => match leafLines cfg speed decel (k + 1) rest with
+      | .error e => .error e
+      | .ok is => .ok (i :: is)
+
+def leafFile (cfg : Cfg) (pts : List (Rat × Rat)) (speed : Rat) (decel : List Bool) : Except Err (List Instr) :=
+  leafLines cfg speed decel 0 pts
 
 end Femto.TP
